@@ -68,6 +68,21 @@ func c01Struct(rc txRecipe) (fs []rep.Finding) {
 	}
 	tx := toLib(ref)
 	std, ext := ref.Bytes(false), ref.Bytes(true)
+	// a serialisation handed to the caller is the caller's: serialising again (this or another
+	// transaction, any format) must not change bytes returned earlier
+	{
+		h1, h2 := tx.Bytes(), tx.ExtendedBytes()
+		k1, k2 := append([]byte(nil), h1...), append([]byte(nil), h2...)
+		o := toLib(ref)
+		o.Version, o.LockTime = ^o.Version, ^o.LockTime
+		for i := 0; i < 3; i++ {
+			_, _, _, _ = o.ExtendedBytes(), o.Bytes(), o.TxID(), tx.Size()
+		}
+		if !bytes.Equal(h1, k1) || !bytes.Equal(h2, k2) {
+			fs = append(fs, rep.F("Bytes|returned-slice-changes-later", "bytes returned by an earlier serialisation changed when another serialisation was made"))
+			return
+		}
+	}
 	if got := tx.Bytes(); !bytes.Equal(got, std) {
 		fs = append(fs, rep.F("Bytes|differs-from-reference", "standard serialisation differs", "got", hex.EncodeToString(got[:min(len(got), 80)]), "want", hex.EncodeToString(std[:min(len(std), 80)])))
 		return
